@@ -204,7 +204,10 @@ def backtest_case(item):
     tap = R.Tap("s")
     algo = getattr(A, name)(run_on_first_date=first, run_on_end_of_period=eop, run_on_last_date=last)
     inner = bt.Strategy("s", [algo, tap, A.SelectAll(), A.WeighEqually(), A.Rebalance()])
-    if nested:
+    if nested == "halting_parent":
+        # the parent's own stack stops on most dates: its sub-strategies are run on every date all the same
+        root = bt.Strategy("r", [A.RunMonthly(), A.WeighSpecified(s=0.5), A.Rebalance()], [inner])
+    elif nested:
         root = bt.Strategy("r", [A.RunDaily(), A.WeighSpecified(s=0.5), A.Rebalance()], [inner])
     else:
         root = inner
@@ -212,7 +215,7 @@ def backtest_case(item):
     b.run()
     node = b.strategy["s"] if nested else b.strategy
     got = R.taps(node, "s")
-    index = b.data.index
+    index = pd.DatetimeIndex([data.index[0] - pd.DateOffset(days=1)]).append(data.index)  # the driver's own
     exp = [str(index[i]) for i in range(1, len(index)) if expected(name, index, i, first, eop, last)]
     viols = []
     if got != exp:
@@ -287,8 +290,41 @@ def combo_case(item):
     return (len(index), 1, viols, len(viols))
 
 
+def random_benchmark_case(item):
+    """bt.backtest.benchmark_random re-runs a strategy on the first backtest's data: every scheduler
+    of the random strategies fires on the dates its parameters describe (all inside the data)"""
+    bt = rt.bt()
+    A = bt.algos
+    member, nsim = item
+    data = R.table("d25", "exact", late=False)
+    base = bt.Backtest(bt.Strategy("base", [A.RunMonthly(), A.SelectAll(), A.WeighEqually(), A.Rebalance()]), data, progress_bar=False)
+    tap = R.Tap("s")
+    rs = bt.Strategy("rand", [_member(member), tap, A.SelectRandomly(2), A.WeighRandomly(), A.Rebalance()])
+    rt.seed_rng(3)
+    import contextlib, io
+
+    with contextlib.redirect_stderr(io.StringIO()), contextlib.redirect_stdout(io.StringIO()):
+        res = bt.backtest.benchmark_random(base, rs, nsim=nsim)
+    index = pd.DatetimeIndex([data.index[0] - pd.DateOffset(days=1)]).append(data.index)
+    exp = [str(index[i]) for i in range(1, len(index)) if _member_fires(member, index, i)]
+    viols = []
+    n = 0
+    for name, b in res.backtests.items():
+        if name == "base":
+            continue
+        n += 1
+        got = R.taps(b.strategy, "s")
+        if got != exp:
+            viols.append({"rule": "scheduler_in_random_benchmark", "expected": {"member": list(member), "dates": exp}, "observed": got, "where": [list(member), nsim]})
+            break
+    return (len(index) * n, 1, viols, len(viols))
+
+
 def replay(case):
     k = case["kind"]
+    if k == "randbench":
+        w = case["where"]
+        return random_benchmark_case((tuple(tuple(x) if isinstance(x, list) else x for x in w[0]), w[1]))[2]
     if k == "window":
         w = case["where"]
         out = window_case((w["window"], [w["bits"]]))[2]
@@ -302,7 +338,7 @@ def replay(case):
 
 
 def run(ctx):
-    ctx.rule = "every subset (size >= 2) of each 8-timestamp window as the data index x 5 calendar schedulers x 8 flag settings x every date of the index (+ synthetic row, None, off-index); counters x all parameters; schedulers inside real backtests, alone and combined with Or (stateless x counting members, both orders) on data whose first row is complete, partly or wholly empty; a case is non-trivial if it is a distinct (scheduler, flags, firing pattern)"
+    ctx.rule = "every subset (size >= 2) of each 8-timestamp window as the data index x 5 calendar schedulers x 8 flag settings x every date of the index (+ synthetic row, None, off-index); counters x all parameters; schedulers inside real backtests (flat, under an always-running and under a halting parent, inside benchmark_random), alone and combined with Or (stateless x counting members, both orders) on data whose first row is complete, partly or wholly empty; a case is non-trivial if it is a distinct (scheduler, flags, firing pattern)"
     ctx.assumptions += [
         "first / last data date are decided by their flags alone (reading fixed by the pinned, passing test_run_period)",
         "week = ISO (year, week); quarter = (month-1)//3; oracle uses datetime only",
@@ -347,7 +383,7 @@ def run(ctx):
     for name in ALGOS:
         for flags in itertools.product((True, False), repeat=3):
             for dname in (("d25", "d6") if ctx.tier == "quick" else ("d25", "d6", "d12")):
-                for nested in (False, True):
+                for nested in (False, True, "halting_parent"):
                     bitems.append((name, flags, dname, nested))
     kinds = ["py"] if ctx.tier == "quick" else ["py", "cy"]
     for kd in kinds:
@@ -377,6 +413,13 @@ def run(ctx):
             ctx.mark(("combo", kd, json.dumps(item, default=str)))
             for v in viols:
                 ctx.violation(dict(v, build=kd, module=MOD, case={"kind": "combo", "where": v["where"]}))
-    ctx.bounds = {"scheduler_combinations": len(combos), "windows": use, "subsets_per_window": len(subsets), "counter_cases": len(citems), "backtests": len(bitems)}
+    rb = [(m, 2) for m in [("RunMonthly",), ("RunWeekly",), ("RunOnce",), ("RunEveryNPeriods", 5, 0), ("RunAfterDays", 8), ("RunQuarterly",)]]
+    for kd in kinds:
+        for item, (n, npat, viols, nv) in ctx.run(kd, MOD, "random_benchmark_case", rb, chunksize=1):
+            ctx.add(states=1, transitions=n, traces_validated_against_impl=2, evaluations=2)
+            ctx.mark(("randbench", kd, json.dumps(item, default=str)))
+            for v in viols:
+                ctx.violation(dict(v, build=kd, module=MOD, case={"kind": "randbench", "where": v["where"]}))
+    ctx.bounds = {"random_benchmark_cases": len(rb), "scheduler_combinations": len(combos), "windows": use, "subsets_per_window": len(subsets), "counter_cases": len(citems), "backtests": len(bitems)}
     ctx.sample({"window": use[0], "index_subset_bits": 0b10110100, "algo": "RunWeekly", "flags": [True, False, False]})
     ctx.sample({"counter": citems[5]})
